@@ -148,9 +148,179 @@ Section MoveLazy.
         pose proof (Hex q Hq) as Hqd. destruct (Nat.eqb_spec q dst); [contradiction|]. destruct (Nat.eqb_spec q src); [contradiction|]. exact (HE q Hq).
   Qed.
 
-  (* ---- histories: the operations of PropGrowLazyMore.grow_op_lazy2 and move construction of any property ---- *)
+  (* ---- the registry invariant when some bindings died and the targets of the others were renamed ---- *)
+  Lemma regs_sub_map w w' src dst (f : nat * nat -> bool) :
+    (forall b, lz w' b = None \/ lz w' b = option_map (rn src dst) (lz w b)) ->
+    forall reg, exists l2, PropGrowLazyMore.Sub l2 (regs_of w reg) /\ regs_of w' (filter f reg) = map (rn src dst) l2 /\
+                           forall q, In q l2 -> exists b, lz w b = Some q /\ lz w' b = Some (rn src dst q).
+  Proof.
+    intros HL. induction reg as [|rb r IH]; [exists []; split; [constructor|split; [reflexivity|intros q []]]|].
+    destruct IH as (l2 & S2 & E2 & K2).
+    assert (E1 : regs_of w (rb :: r) = (match lz w (snd rb) with Some q => [q] | None => [] end) ++ regs_of w r) by reflexivity. rewrite E1.
+    cbn [filter]. destruct (f rb).
+    - assert (E3 : regs_of w' (rb :: filter f r) = (match lz w' (snd rb) with Some q => [q] | None => [] end) ++ regs_of w' (filter f r)) by reflexivity. rewrite E3, E2.
+      destruct (HL (snd rb)) as [E|E]; rewrite E.
+      + exists l2. split; [|split; [reflexivity|exact K2]]. destruct (lz w (snd rb)); [apply PropGrowLazyMore.Sub_drop|]; exact S2.
+      + destruct (lz w (snd rb)) as [q|] eqn:Eq; cbn [option_map app].
+        * exists (q :: l2). split; [apply PropGrowLazyMore.Sub_keep; exact S2|]. split; [reflexivity|].
+          intros q' [<-|Hq']; [exists (snd rb); split; [exact Eq|rewrite E; reflexivity]|exact (K2 q' Hq')].
+        * exists l2. split; [exact S2|split; [reflexivity|exact K2]].
+    - exists l2. split; [|split; [exact E2|exact K2]]. destruct (lz w (snd rb)); [apply PropGrowLazyMore.Sub_drop|]; exact S2.
+  Qed.
+
+  Lemma LREG_renamed w w' src dst (f : nat * nat -> bool) :
+    src <> dst -> pinv w -> LREG w ->
+    (forall b, lz w' b = None \/ lz w' b = option_map (rn src dst) (lz w b)) ->
+    (forall b, lz w b = Some dst -> lz w' b = None) ->
+    (forall q x', lz_of w' q = Some x' -> q <> src /\ exists x, lz_of w (if Nat.eqb q dst then src else q) = Some x /\
+                                             leaves (b_root x') = map (mvl src dst) (leaves (b_root x))) ->
+    (forall b lf q, has_leaf w b lf -> lf_tg lf = Some q -> q <> dst) ->
+    nth_error (w_evps w') ev = option_map (fun st => {| ep_registry := filter f (ep_registry st); ep_next := ep_next st |}) (nth_error (w_evps w) ev) ->
+    length (w_binds w') = length (w_binds w) ->
+    (forall q, q <> dst -> lookup (w_props w) q <> None -> lookup (w_props w') (rn src dst q) <> None) ->
+    LREG w'.
+  Proof.
+    intros Hne Hinv HR HL Hdst LOF Ltg Hev LEN HPx. set (rho := rn src dst). unfold PropGrowLazy.LREG in *. rewrite Hev.
+    destruct (nth_error (w_evps w) ev) as [st|] eqn:Hst; [|exact I]. cbn [option_map ep_registry].
+    destruct HR as (ND & HC & HBd & HE).
+    destruct (regs_sub_map w w' src dst f HL (ep_registry st)) as (l2 & S2 & E2 & K2). rewrite E2.
+    assert (Hex : forall q, In q l2 -> q <> dst).
+    { intros q Hq ->. destruct (K2 dst Hq) as (b & Hb & Hb'). rewrite (Hdst b Hb) in Hb'. discriminate Hb'. }
+    pose proof (PropGrowLazyMore.Sub_NoDup _ _ S2 ND) as ND2.
+    assert (HC2 : lchain w l2) by (apply (PropGrowLazyMore.lchain_sub w w _ _ S2 HC); reflexivity).
+    split; [|split; [|split]].
+    - clear -ND2 Hex. induction l2 as [|a l IH]; cbn [map]; [constructor|]. inversion ND2 as [|? ? Ha Hl]; subst.
+      constructor; [|apply IH; [intros q Hq; apply Hex; right; exact Hq|exact Hl]].
+      intros Hi. apply in_map_iff in Hi. destruct Hi as (b & E & Hb). apply Ha.
+      rewrite (rn_inj src dst a b (Hex a (or_introl eq_refl)) (Hex b (or_intror Hb)) (eq_sym E)). exact Hb.
+    - assert (G : forall regs, (forall q, In q regs -> q <> dst) -> lchain w regs -> lchain w' (map rho regs)).
+      { induction regs as [|q r IHr]; cbn [lchain map]; intros Hxr HCr; [exact I|]. destruct HCr as [HA HCr].
+        split; [|apply IHr; [intros q' Hq'; apply Hxr; right; exact Hq'|exact HCr]].
+        intros x' lf' p' Hx' Hi Ht Hin.
+        assert (Hqd : q <> dst) by (apply Hxr; left; reflexivity).
+        destruct (LOF (rho q) x' Hx') as (Hqs & x & Hx & El).
+        assert (Eq0 : (if Nat.eqb (rho q) dst then src else rho q) = q).
+        { unfold rho, rn. destruct (Nat.eqb_spec q src) as [->|Hq0]; [rewrite Nat.eqb_refl; reflexivity|]. destruct (Nat.eqb_spec q dst); [contradiction|reflexivity]. }
+        rewrite Eq0 in Hx. rewrite El in Hi. apply in_map_iff in Hi. destruct Hi as (lf & <- & Hlf).
+        rewrite (mvl_tg src dst lf Hne) in Ht. destruct (lf_tg lf) as [p0|] eqn:Etq; [|discriminate Ht].
+        destruct (PropGrowLazy.lz_of_bind _ _ _ Hx) as (b & pr & _ & _ & Hb).
+        assert (Hl : has_leaf w b lf) by (exists (leaves (b_root x)), (b_target x); split; [unfold bview; rewrite Hb; reflexivity|exact Hlf]).
+        pose proof (Ltg _ _ _ Hl Etq) as Hp0d. destruct (Nat.eqb_spec p0 dst); [contradiction|].
+        assert (Ep' : p' = rho p0) by (unfold rho, rn; destruct (Nat.eqb p0 src); congruence). subst p'.
+        apply (HA x lf p0 Hx Hlf Etq).
+        change (In (rho p0) (map rho (q :: r))) in Hin. apply in_map_iff in Hin. destruct Hin as (y & Ey & Hy).
+        rewrite <- (rn_inj src dst y p0 (Hxr y Hy) Hp0d Ey). exact Hy. }
+      apply G; [exact Hex|exact HC2].
+    - intros rb Hi. apply filter_In in Hi. destruct Hi as [Hi _]. rewrite LEN. auto.
+    - intros q' Hq'. apply in_map_iff in Hq'. destruct Hq' as (q & <- & Hq). apply HPx; [exact (Hex q Hq)|].
+      exact (HE q (PropGrowLazyMore.Sub_In _ _ S2 q Hq)).
+  Qed.
+
+  (* ---- move ASSIGNMENT over a destination that no binding reads ---- *)
+  Lemma lazy_grow_moveassign fuel w dst src w' :
+    LSC w -> LSND w -> LREG w -> NOEMIT w -> (forall b lf, has_leaf w b lf -> lf_tg lf <> Some dst) ->
+    step1 fn rtl fuel w (PMoveAssign dst src) = (w', None) -> LSC w' /\ LSND w' /\ LREG w'.
+  Proof.
+    intros HSC HSN HR HNE Hnr H. pose proof HSC as (Hinv & Hna & Hsi & Hal). pose proof HSN as (s & (R1 & R2) & HS).
+    pose proof (moveassign_pinv fn rtl fuel w dst src w' None Hinv HNE H I) as Hinv'.
+    destruct (moveassign_shape fn rtl fuel w dst src w' Hinv Hna HNE Hnr H) as (s0 & d0 & dn & sn & Hs & Hd & Hne & Vd & Ud & Vs & Us & PW & Sw & HB & HT & HEV & LEN).
+    set (rho := rn src dst).
+    assert (Pdd : pview w dst = Some (psigs_of d0)) by (unfold pview; rewrite Hd; reflexivity).
+    assert (Ltg : forall b lf q, has_leaf w b lf -> lf_tg lf = Some q -> q <> dst) by (intros b lf q Hl Ht ->; exact (Hnr b lf Hl Ht)).
+    (* the old binding of dst, if any *)
+    assert (Hbd : forall b, pr_updater d0 = Some b -> get_bind w' b = None).
+    { intros b Hu. rewrite Hu in HEV. destruct HEV as (x & _ & G & _). exact G. }
+    assert (Hnotbd : forall q pr b, q <> dst -> lookup (w_props w) q = Some pr -> pr_updater pr = Some b -> pr_updater d0 <> Some b).
+    { intros q pr b Hq Hp Hu Hud.
+      assert (Pq : pview w q = Some (psigs_of pr)) by (unfold pview; rewrite Hp; reflexivity).
+      destruct (pi_upd _ _ _ _ _ _ _ Hinv _ _ _ Pq Hu (fun z => z)) as (ls & Eb).
+      destruct (pi_upd _ _ _ _ _ _ _ Hinv _ _ _ Pdd Hud (fun z => z)) as (ls' & Eb'). rewrite Eb in Eb'. inversion Eb'. contradiction. }
+    assert (LOF : forall q, match lz_of w' q with
+                            | Some x' => q <> src /\ exists x, lz_of w (if Nat.eqb q dst then src else q) = Some x /\
+                                           abs_tree (b_root x') = option_map (aren rho) (abs_tree (b_root x)) /\
+                                           leaves (b_root x') = map (mvl src dst) (leaves (b_root x))
+                            | None => q = src \/ lz_of w (if Nat.eqb q dst then src else q) = None end).
+    { assert (K : forall q pr b, q <> dst -> lookup (w_props w) q = Some pr -> pr_updater pr = Some b ->
+                    match get_bind w' b with
+                    | Some x' => exists x, get_bind w b = Some x /\ abs_tree (b_root x') = option_map (aren rho) (abs_tree (b_root x)) /\
+                                           leaves (b_root x') = map (mvl src dst) (leaves (b_root x))
+                    | None => get_bind w b = None end).
+      { intros q pr b Hq Hp Hu. pose proof (Hnotbd q pr b Hq Hp Hu) as Hnb. pose proof (HB b Hnb) as Hb.
+        destruct (get_bind w b) as [x|] eqn:Hx, (get_bind w' b) as [x'|] eqn:Hx'; try (exfalso; exact Hb); [|reflexivity].
+        exists x. split; [reflexivity|]. split; [exact (proj2 Hb)|exact (proj2 (HT b x x' Hnb Hx Hx'))]. }
+      intros q. unfold lz_of. rewrite PW. destruct (Nat.eqb_spec q dst) as [->|Hqd].
+      - rewrite Hs, Ud. destruct (pr_updater s0) as [b|] eqn:Hub; [|right; reflexivity].
+        pose proof (K src s0 b Hne Hs Hub) as Hk. destruct (get_bind w' b) as [x'|]; [|right; exact Hk].
+        destruct Hk as (x & Hx & Ha & Hl). split; [intros E; apply Hne; symmetry; exact E|]. exists x. auto.
+      - destruct (Nat.eqb_spec q src) as [Eq|Hqs]; [rewrite Us; left; exact Eq|].
+        destruct (lookup (w_props w) q) as [pr|] eqn:Hp; [|right; reflexivity]. destruct (pr_updater pr) as [b|] eqn:Hub; [|right; reflexivity].
+        pose proof (K q pr b Hqd Hp Hub) as Hk. destruct (get_bind w' b) as [x'|]; [|right; exact Hk].
+        destruct Hk as (x & Hx & Ha & Hl). split; [exact Hqs|]. exists x. auto. }
+    assert (LZ : forall b, lz w' b = if opt_eqb Nat.eqb (pr_updater d0) (Some b) then None else option_map rho (lz w b)).
+    { intros b. unfold lz. destruct (opt_eqb Nat.eqb (pr_updater d0) (Some b)) eqn:Eu.
+      - assert (Hu : pr_updater d0 = Some b) by (destruct (pr_updater d0) as [bu|]; cbn [opt_eqb] in Eu; [apply Nat.eqb_eq in Eu; congruence|discriminate Eu]).
+        rewrite (Hbd b Hu). reflexivity.
+      - assert (Hnb : pr_updater d0 <> Some b) by (intros E; rewrite E in Eu; cbn [opt_eqb] in Eu; rewrite Nat.eqb_refl in Eu; discriminate Eu).
+        pose proof (HB b Hnb) as Hb. destruct (get_bind w b) as [x|] eqn:Hx, (get_bind w' b) as [x'|] eqn:Hx'; try (exfalso; exact Hb); [|reflexivity].
+        exact (proj1 (HT b x x' Hnb Hx Hx')). }
+    assert (HSC' : LSC w').
+    { split; [exact Hinv'|]. split; [|split].
+      - intros t pos ser label act Hsl. apply Sw in Hsl. eapply Hna; eauto.
+      - intros q x' Hx'. pose proof (LOF q) as Hq. rewrite Hx' in Hq. destruct Hq as (_ & x & Hx & Ea & _). rewrite Ea.
+        pose proof (Hsi _ _ Hx) as Hn. destruct (abs_tree (b_root x)); [discriminate|contradiction].
+      - split; [exact (proj1 Hal)|]. intros b x' Hx'.
+        assert (Hnb : pr_updater d0 <> Some b) by (intros E; rewrite (Hbd b E) in Hx'; discriminate Hx').
+        pose proof (HB b Hnb) as Hb. rewrite Hx' in Hb. destruct (get_bind w b) as [x|] eqn:Hx; [|destruct Hb].
+        rewrite (proj1 Hb). exact (proj2 Hal _ _ Hx). }
+    split; [exact HSC'|]. split.
+    - set (s' := {| L.lenv := fun x => if Nat.eqb x dst then L.lenv s src else L.lenv s x;
+                    L.ltr := fun q => if Nat.eqb q src then None else option_map (aren rho) (L.ltr s (if Nat.eqb q dst then src else q)) |}).
+      exists s'. split; [split|].
+      + intros q prq Hq. rewrite PW in Hq. cbn [s' L.lenv]. destruct (Nat.eqb_spec q dst) as [->|Hqd].
+        * inversion Hq; subst prq. rewrite Vd. exact (R1 _ _ Hs).
+        * destruct (Nat.eqb_spec q src) as [->|Hqs]; [inversion Hq; subst prq; rewrite Vs; exact (R1 _ _ Hs)|auto].
+      + intros q. cbn [s' L.ltr]. pose proof (LOF q) as Hq. destruct (lz_of w' q) as [x'|].
+        * destruct Hq as (Hqs & x & Hx & Ea & _). destruct (Nat.eqb_spec q src); [contradiction|]. rewrite R2, Hx. symmetry. exact Ea.
+        * destruct (Nat.eqb_spec q src) as [|Hqs]; [reflexivity|]. destruct Hq as [Hq|Hq]; [contradiction|]. rewrite R2, Hq. reflexivity.
+      + intros q t' Ht'. cbn [s' L.ltr L.lenv] in Ht' |- *. destruct (Nat.eqb_spec q src) as [|Hqs]; [discriminate Ht'|].
+        set (q0 := if Nat.eqb q dst then src else q) in *.
+        destruct (L.ltr s q0) as [t|] eqn:Ht; [|discriminate Ht']. inversion Ht'; subst t'; clear Ht'.
+        apply (aren_sound rho (L.lenv s)); [|exact (HS q0 t Ht)].
+        intros p lid Hi. rewrite R2 in Ht. destruct (lz_of w q0) as [x|] eqn:Hx; [|discriminate Ht].
+        destruct (abs_leaf_in _ _ _ _ Ht Hi) as (lf & Hlf & Htg & _).
+        destruct (PropGrowLazy.lz_of_bind _ _ _ Hx) as (b & pr & _ & _ & Hb).
+        assert (Hl : has_leaf w b lf) by (exists (leaves (b_root x)), (b_target x); split; [unfold bview; rewrite Hb; reflexivity|exact Hlf]).
+        pose proof (Ltg _ _ _ Hl Htg) as Hpd. unfold rho, rn. destruct (Nat.eqb_spec p src) as [->|Hps]; [rewrite Nat.eqb_refl; reflexivity|].
+        destruct (Nat.eqb_spec p dst); [contradiction|reflexivity].
+    - (* the registry of ev: possibly without the entry of dst's old binding, every other target renamed *)
+      assert (Hf : exists f : nat * nat -> bool, nth_error (w_evps w') ev =
+                     option_map (fun st => {| ep_registry := filter f (ep_registry st); ep_next := ep_next st |}) (nth_error (w_evps w) ev)).
+      { destruct (pr_updater d0) as [bd|] eqn:Hud.
+        - destruct HEV as (x & _ & _ & Ev). rewrite Ev. exact (PropGrowLazyMore.evps_after_destroy ev (w_evps w) x).
+        - exists (fun _ => true). rewrite HEV. destruct (nth_error (w_evps w) ev) as [[rg nx]|]; [|reflexivity]. cbn [option_map ep_registry ep_next].
+          assert (Ef : forall l : list (nat * nat), filter (fun _ => true) l = l) by (induction l as [|a l IH]; cbn; [reflexivity|rewrite IH; reflexivity]). rewrite Ef. reflexivity. }
+      destruct Hf as (f & Hf).
+      apply (LREG_renamed w w' src dst f Hne Hinv HR).
+      + intros b. rewrite LZ. destruct (opt_eqb Nat.eqb (pr_updater d0) (Some b)); auto.
+      + intros b Hb. rewrite LZ. unfold lz in Hb. destruct (get_bind w b) as [x|] eqn:Hx; [|discriminate Hb].
+        assert (Bv : bview w b = Some (leaves (b_root x), Some dst)) by (unfold bview; rewrite Hx, Hb; reflexivity).
+        destruct (pi_tgt _ _ _ _ _ _ _ Hinv _ _ _ Bv) as (vq & Evq & Euq). rewrite Pdd in Evq. inversion Evq; subst vq. cbn in Euq.
+        rewrite Euq. cbn [opt_eqb]. rewrite Nat.eqb_refl. reflexivity.
+      + intros q x' Hx'. pose proof (LOF q) as Hq. rewrite Hx' in Hq. destruct Hq as (Hqs & x & Hx & _ & El). split; [exact Hqs|]. exists x. auto.
+      + exact Ltg.
+      + exact Hf.
+      + exact LEN.
+      + intros q Hqd Hex. rewrite PW. unfold rn. destruct (Nat.eqb_spec q src) as [->|Hqs]; [rewrite Nat.eqb_refl; discriminate|].
+        destruct (Nat.eqb_spec q dst); [contradiction|]. destruct (Nat.eqb_spec q src); [contradiction|exact Hex].
+  Qed.
+
+  (* ---- histories: the operations of PropGrowLazyMore.grow_op_lazy2, move construction of any property, move assignment over
+     a destination that no live binding reads ---- *)
   Definition grow_op_lazy3 (w : world) (o : op) : Prop :=
-    match o with PMoveCtor _ _ => True | _ => PropGrowLazyMore.grow_op_lazy2 w o end.
+    match o with
+    | PMoveCtor _ _ => True
+    | PMoveAssign dst _ => PropGrowMore.no_reader_b w dst = true
+    | _ => PropGrowLazyMore.grow_op_lazy2 w o end.
 
   Theorem lazy_grow3_step f w o w' :
     LSC w -> LSND w -> LREG w -> NOEMIT w -> grow_op_lazy3 w o -> step1 fn rtl (S f) w o = (w', None) ->
@@ -160,7 +330,8 @@ Section MoveLazy.
     assert (HNE' : NOEMIT w') by (pose proof (step1_tmono fn rtl (S f) w o) as M; rewrite H in M; cbn [fst] in M; eapply NOEMIT_tmono; eauto).
     enough (LSC w' /\ LSND w' /\ LREG w') by tauto.
     destruct o; cbn [grow_op_lazy3] in Ho; try (exact (PropGrowLazyMore.lazy_grow2_step fn rtl ev ev_pos f w _ w' HSC HS HR Ho H)).
-    exact (lazy_grow_movector (S f) w src dst w' HSC HS HR HNE H).
+    - exact (lazy_grow_movector (S f) w src dst w' HSC HS HR HNE H).
+    - exact (lazy_grow_moveassign (S f) w dst src w' HSC HS HR HNE (PropGrowMore.no_reader_sound w dst Ho) H).
   Qed.
 
   Fixpoint lazy_run3_ok (f : nat) (w : world) (ops : list op) : Prop :=
